@@ -10,6 +10,7 @@ package main
 
 import (
 	"context"
+	"flag"
 	"fmt"
 	"math/rand"
 	"sync"
@@ -23,6 +24,11 @@ import (
 )
 
 const slack = 3 * time.Second
+
+// -proto hsmsss|secs1: which transport sits under the shared engine
+var proto = flag.String("proto", "hsmsss", "hsmsss|secs1")
+
+func s1() bool { return *proto == "secs1" }
 
 type S struct {
 	c     *vh.Ctx
@@ -47,6 +53,10 @@ func (s *S) must(ok bool, what string) bool {
 }
 
 func newS(c *vh.Ctx, name string, o genx.Options, onGen func(p *genx.Peer)) *S {
+	if s1() {
+		o.Secs1, o.Retry, o.T2 = true, 1, 30*time.Millisecond
+		name = "s1-" + name
+	}
 	e, err := genx.NewEnv(o)
 	if err != nil {
 		panic(err)
@@ -277,11 +287,29 @@ func outcomes(c *vh.Ctx) {
 	_ = p.Primary(1)
 	_ = p.Primary(2)
 	s.quiesce(true, "after-replies")
-	// peer reject
-	p.RejectAll.Store(true)
-	s.wait(e.Start(genx.KSyncW, bg))
-	p.RejectAll.Store(false)
-	s.quiesce(true, "after-reject")
+	// a duplicate of an already delivered reply: an orphan secondary, counted, handed to the handlers
+	p.Mute.Store(true)
+	cd := e.Start(genx.KSyncW, bg)
+	s.must(waitFor(5*time.Second, cd.OnWire), "primary on the wire")
+	held := p.TakeHeld()
+	p.Mute.Store(false)
+	for _, f := range held {
+		_ = p.Reply(f)
+	}
+	s.wait(cd)
+	if !s1() { // on a SECS-I line an identical block is a retransmission and is discarded (E4 9.4.2)
+		for _, f := range held {
+			_ = p.Reply(f)
+		}
+	}
+	s.quiesce(true, "after-duplicate")
+	// peer reject (HSMS-SS only: SECS-I has no Reject.req)
+	if !s1() {
+		p.RejectAll.Store(true)
+		s.wait(e.Start(genx.KSyncW, bg))
+		p.RejectAll.Store(false)
+		s.quiesce(true, "after-reject")
+	}
 	// T3, then the late reply arrives as an unsolicited secondary
 	p.Mute.Store(true)
 	cl := e.Start(genx.KSyncW, bg)
@@ -299,19 +327,24 @@ func outcomes(c *vh.Ctx) {
 	p.TakeHeld()
 	p.Mute.Store(false)
 	s.quiesce(true, "after-cancel")
-	// B2 refusal: a sender parked in writeFrame while the peer deselects
-	rel := e.StallCall(len(e.Calls()))
-	cl = e.Start(genx.KSyncW, bg)
-	if _, ok := e.WaitParked(5 * time.Second); s.must(ok, "parked") {
-		_ = p.Deselect()
-		s.must(e.WaitState(hsms.NotSelectedState, 5*time.Second), "deselected")
+	if !s1() {
+		// B2 refusal: a sender parked in writeFrame while the peer deselects
+		rel := e.StallCall(len(e.Calls()))
+		cl = e.Start(genx.KSyncW, bg)
+		if _, ok := e.WaitParked(5 * time.Second); s.must(ok, "parked") {
+			_ = p.Deselect()
+			s.must(e.WaitState(hsms.NotSelectedState, 5*time.Second), "deselected")
+		}
+		rel()
+		s.wait(cl)
+		s.must(waitFor(5*time.Second, func() bool { return p.CtrlSeen[4].Load() == 1 }), "Deselect.rsp received")
+		// B1 refusals of every kind while NotSelected
+		s.wait(e.Start(genx.KSyncW, bg), e.Start(genx.KSyncNW, bg), e.Start(genx.KAsync, bg))
+		// a data frame received while NotSelected is answered with Reject.req and NOT counted
+		_ = p.PrimaryUncounted(77)
+		s.must(waitFor(5*time.Second, func() bool { return p.CtrlSeen[7].Load() == 1 }), "Reject.req for data while not selected")
+		s.quiesce(false, "after-refusals")
 	}
-	rel()
-	s.wait(cl)
-	s.must(waitFor(5*time.Second, func() bool { return p.CtrlSeen[4].Load() == 1 }), "Deselect.rsp received")
-	// B1 refusals of every kind while NotSelected
-	s.wait(e.Start(genx.KSyncW, bg), e.Start(genx.KSyncNW, bg), e.Start(genx.KAsync, bg))
-	s.quiesce(false, "after-refusals")
 	// disconnect while awaiting the reply, on the next generation
 	if !s.dropAndReconnect() {
 		return
@@ -319,14 +352,17 @@ func outcomes(c *vh.Ctx) {
 	p = e.Peer(1)
 	p.Mute.Store(true)
 	cl = e.Start(genx.KSyncW, bg)
-	s.must(waitFor(5*time.Second, func() bool { return p.DataRecv.Load() == 1 }), "primary on the wire")
+	s.must(waitFor(5*time.Second, cl.OnWire), "primary on the wire")
 	if !s.dropAndReconnect() {
 		return
 	}
 	s.wait(cl)
 	s.quiesce(true, "after-disconnect")
-	// write error: the peer stops reading, the write deadline fires (its own generation end)
-	_ = e.Conn.UpdateConfigOptions(hsms.WithWriteTimeout(30 * time.Millisecond))
+	// write error: the peer stops reading, the write deadline fires (its own generation end);
+	// SECS-I: the peer never grants the line and the send fails after T2 x (retry+1)
+	if !s1() {
+		_ = e.Conn.UpdateConfigOptions(hsms.WithWriteTimeout(30 * time.Millisecond))
+	}
 	p = e.Peer(2)
 	p.StopRead.Store(true)
 	cl = e.Start(genx.KSyncNW, bg)
@@ -420,6 +456,52 @@ func gatedReconnect(c *vh.Ctx, k int) {
 	}
 }
 
+// scenario: OpenBackground against a peer whose first k dials fail: the initial-connect retry loop
+// holds the reconnecting gauge positive, is NOT a reconnect, and sends meanwhile are refused.
+func coldConnect(c *vh.Ctx, k int) {
+	s := newS(c, fmt.Sprintf("cold-connect-%d", k), genx.DefaultOptions(), nil)
+	defer s.finish()
+	e := s.e
+	gate := make(chan struct{})
+	inDial := make(chan struct{}, 16)
+	var n atomic.Int64
+	e.DialGate = func(int) {
+		if n.Add(1) > 1 { // every attempt after the first synchronous one is gated
+			select {
+			case inDial <- struct{}{}:
+			default:
+			}
+			<-gate
+		}
+	}
+	var fails atomic.Int64
+	e.DialErr = func(int) error {
+		if fails.Add(1) <= int64(k) {
+			return fmt.Errorf("scripted dial failure")
+		}
+		return nil
+	}
+	if !s.must(e.OpenBackground() == nil, "open in background") {
+		close(gate)
+		return
+	}
+	bg := context.Background()
+	select {
+	case <-inDial:
+	case <-time.After(10 * time.Second):
+		s.must(false, "initial-connect retry loop reached the dial")
+	}
+	if v := e.Conn.Metrics().Reconnecting(); v <= 0 {
+		s.fail("reconnecting gauge not positive while the initial-connect retry loop is dialling", fmt.Sprintf("value=%d", v))
+	}
+	s.wait(e.Start(genx.KSyncW, bg), e.Start(genx.KAsync, bg)) // refused
+	close(gate)
+	if s.must(e.WaitSelected(0, 10*time.Second), "generation 0 selected") {
+		s.wait(e.Start(genx.KSyncW, bg))
+		s.quiesce(true, "after") // reconnects stays 0: the first connect is not a reconnect
+	}
+}
+
 // scenario: Close with sends in flight, reopen, more sends (Close is not a reconnect).
 func closeReopen(c *vh.Ctx) {
 	s := newS(c, "close-reopen", genx.DefaultOptions(), func(p *genx.Peer) {
@@ -434,7 +516,7 @@ func closeReopen(c *vh.Ctx) {
 	}
 	bg := context.Background()
 	cs := []*genx.Call{e.Start(genx.KSyncW, bg), e.Start(genx.KSyncW, bg)}
-	s.must(waitFor(5*time.Second, func() bool { return e.Peer(0).DataRecv.Load() == 2 }), "primaries on the wire")
+	s.must(waitFor(5*time.Second, func() bool { return cs[0].OnWire() && cs[1].OnWire() }), "primaries on the wire")
 	_ = e.Conn.Close()
 	s.wait(cs...)
 	s.quiesce(false, "closed-1")
@@ -517,6 +599,10 @@ func random(c *vh.Ctx, r *rand.Rand, idx int) {
 
 // deterministic scenarios compared for EQUALITY with the model run, snapshots included
 func modelEq(c *vh.Ctx) {
+	if s1() {
+		modelEqS1(c)
+		return
+	}
 	o := genx.DefaultOptions()
 	o.T3 = 40 * time.Millisecond
 	s := newS(c, "eq-outcomes", o, nil)
@@ -571,6 +657,54 @@ func modelEq(c *vh.Ctx) {
 	_ = e.Conn.Close()
 }
 
+// SECS-I variant: reply, T3, async, drop while waiting, write failure by retry exhaustion
+func modelEqS1(c *vh.Ctx) {
+	o := genx.DefaultOptions()
+	o.T3 = 40 * time.Millisecond
+	s := newS(c, "eq-outcomes", o, nil)
+	e := s.e
+	bg := context.Background()
+	if s.must(e.Open(5*time.Second) == nil, "open") {
+		p := e.Peer(0)
+		s.wait(e.Start(genx.KSyncW, bg)) // 0: reply
+		e.WaitReconnectingZero(2 * time.Second)
+		e.WaitSettled(2 * time.Second)
+		e.Snapshot(true)
+		p.Mute.Store(true)
+		s.wait(e.Start(genx.KSyncW, bg)) // 1: T3
+		p.TakeHeld()
+		p.Mute.Store(false)
+		ca := e.Start(genx.KAsync, bg) // 2: async, written
+		s.wait(ca)
+		s.must(waitFor(5*time.Second, ca.OnWire), "async frame on the wire")
+		e.WaitSettled(2 * time.Second)
+		e.Snapshot(true)
+		p.Mute.Store(true)
+		cl := e.Start(genx.KSyncW, bg) // 3: disconnect while waiting
+		s.must(waitFor(5*time.Second, cl.OnWire), "primary on the wire")
+		p.Close()
+		<-p.EOF
+		s.wait(cl)
+		s.must(e.WaitSelected(1, 10*time.Second), "generation 1")
+		e.WaitReconnectingZero(2 * time.Second)
+		s.wait(e.Start(genx.KSyncNW, bg)) // 4
+		e.WaitSettled(2 * time.Second)
+		e.Snapshot(true)
+		acts := "open up sel " +
+			"en 0 0 b1 0 rg 0 cp 0 ck 0 wo 0 ar 0 ps 0 reply 0 rd 0 rt 0 cr 0 snap " +
+			"en 1 0 b1 1 rg 1 cp 1 ck 1 wo 1 ar 1 ct 1 en 1000 2 b1 1000 eq 1000 dr 1000 cp 1000 ck 1000 wo 1000 " +
+			"en 2 2 b1 2 eq 2 dr 2 cp 2 ck 2 wo 2 snap " +
+			"en 3 0 b1 3 rg 3 cp 3 ck 3 wo 3 ar 3 drop lsp td cc 3 join 0 lbeg pub up sel lend 1 " +
+			"en 4 1 b1 4 rg 4 cp 4 ck 4 wo 4 snap"
+		evs := e.Finish()
+		line := "M s1-eq-outcomes | " + acts + " | " + genx.Line(evs)
+		c.Case(line, line, true)
+	}
+	close(s.stopS)
+	s.sWg.Wait()
+	_ = e.Conn.Close()
+}
+
 func main() {
 	c := vh.New()
 	r := c.Rng
@@ -584,6 +718,7 @@ func main() {
 		asyncAcrossDrop(c, 1+r.Intn(6))
 		gatedReconnect(c, 0)
 		gatedReconnect(c, 1+r.Intn(2))
+		coldConnect(c, 1+r.Intn(2))
 		closeReopen(c)
 	}
 	for i := 0; i < c.N; i++ {
